@@ -82,10 +82,19 @@ def run_family(ctx, steps):
         may_change = set()
         desc = {"kind": kind}
         try:
+            # the first step of every family is one of the operations that take an OBJECT the caller keeps (in turn)
+            forced = None
+            if step == 0:
+                k_fam = getattr(ctx, "_families", 0)
+                ctx._families = k_fam + 1
+                forced = ["sort_with_arg_lists", "dropna_with_arg_list", "take_with_arg_positions", "from_flat_on_with_arg_list",
+                          "with_flat_arg", "setitem_field_arg", "pack_seq_nested_series", "add_nested_series"][k_fam % 8]
+                kind = "pure"
+                desc["kind"] = kind
             if kind == "pure":
-                tname = rng.choice(frames)
+                tname = rng.choice(frames) if forced is None else "O"
                 X = fam[tname]
-                op = rng.choice(["query", "eval", "eval_assign", "sort", "dropna", "add_nested", "add_nested_series", "add_nested_series",
+                op = forced or rng.choice(["query", "eval", "eval_assign", "sort", "dropna", "add_nested", "add_nested_series", "add_nested_series",
                                  "reduce", "with_flat", "with_flat_arg", "with_flat_arg", "setitem_field_arg", "without",
                                  "pack_nested_series", "pack_seq_nested_series", "from_flat_on_with_arg_list",
                                  "to_parquet", "to_flat", "from_flat", "pack", "setitem_series_new_nest", "nest_lists", "take",
